@@ -40,6 +40,9 @@ type descriptor struct {
 	// activation decides for itself (one event continues BOTH tokens waiting at
 	// the matching catch event and withdraws both tokens' other alternatives)
 	TwoTokens bool `json:"twoTokens,omitempty"`
+	// Flood: the first event an alternative waits for arrives at the end of a
+	// back-to-back run of 4..12 events nobody waits for
+	Flood bool `json:"flood,omitempty"`
 }
 
 const timerExpr = "PT10S"
@@ -177,9 +180,30 @@ func draw(rt *rapid.T) descriptor {
 	if d.PreTask {
 		d.Script = append(d.Script, drive.Stim{Kind: "answer"})
 	}
+	matched := 0
+	if rapid.IntRange(0, 3).Draw(rt, "flood") == 0 {
+		// a flood: 4..12 events nobody waits for and then the event of one
+		// alternative, handed to the instance back to back (every listening
+		// alternative is offered every event; none of them may lose its own)
+		var cands []gen.EventDef
+		for _, a := range d.Alts {
+			if a.Kind != "timer" {
+				cands = append(cands, a)
+			}
+		}
+		if len(cands) > 0 {
+			var evs []drive.Stim
+			for k := rapid.IntRange(4, 12).Draw(rt, "floodSize"); k > 0; k-- {
+				evs = append(evs, drive.Stim{Kind: "event", Ev: &model.Ev{Kind: "signal", Ref: "zz"}})
+			}
+			evs = append(evs, drive.Stim{Kind: "event", Ev: evOf(cands[rapid.IntRange(0, len(cands)-1).Draw(rt, "floodWinner")])})
+			d.Script = append(d.Script, drive.Stim{Kind: "rapid", Burst: evs})
+			d.Flood = true
+			matched++
+		}
+	}
 	// the competing events: a non-empty sequence of length <= 4, adjacent pairs possibly concurrent
 	ne := rapid.IntRange(1, 4).Draw(rt, "events")
-	matched := 0
 	for i := 0; i < ne; {
 		if matched > 0 && matched >= 1+maxLate {
 			break
@@ -270,6 +294,9 @@ func classify(d descriptor, out *drive.ScriptOutcome) (cls []string, nt bool) {
 		}
 	}
 	cls = append(cls, fmt.Sprintf("alts=%d", len(d.Alts)))
+	if d.Flood {
+		cls = append(cls, "floodBeforeTheDecidingEvent")
+	}
 	if d.Loop {
 		cls = append(cls, "loopBackToGateway")
 		if out != nil && len(out.Fired) >= 2 {
